@@ -618,6 +618,13 @@ NESTED = [('ISERROR(A1)', 'b'), ('ISNA(A2)', 'b'), ('ISERR(A4)', 'b'),
           ('NOT(A4)', 'b'), ('EXACT(A3,"txt")', 'b'),
           ('LEN(A3)', 'n'), ('SUM(A4,1)', 'n'), ('ROUND(A4/2,0)', 'n'),
           ('A4*2', 'n'), ('ABS(-A4)', 'n'), ('COUNT(A4:A5)', 'n'),
+          # numbers that are numpy scalars inside the library
+          ('EXP(1)', 'n'), ('COS(0)', 'n'), ('SIGN(-A4)', 'n'),
+          ('LOG10(100)', 'n'), ('RADIANS(180)', 'n'), ('EXP(1)*2+1', 'n'),
+          ('SQRT(A4)', 'n'), ('POWER(A4,2)', 'n'), ('A4^0.5', 'n'),
+          ('MOD(A4,3)', 'n'), ('PI()', 'n'), ('AVERAGE(A4,1)', 'n'),
+          ('MAX(A4,1)', 'n'), ('SUMPRODUCT(A4:A4,A4:A4)', 'n'),
+          ('INT(A4/2)', 'n'), ('DATE(2020,1,2)-1', 'n'), ('A6', 'n'),
           ('LEFT(A3,2)', 's'), ('A4&""', 's'), ('UPPER(A3)', 's'),
           ('CONCATENATE(A3,A4)', 's'), ('IF(TRUE,"t",1)', 's'),
           ('A1', 'e:#DIV/0!'), ('A2', 'e:#N/A'), ('A1+1', 'e:#DIV/0!'),
@@ -683,7 +690,7 @@ def _is_nested(case, res):
             'ISNA': kind == 'e:#N/A', 'ISNUMBER': kind == 'n',
             'ISTEXT': kind == 's', 'ISBLANK': False}[fn]
     cells = {'Sheet1!A1': '=1/0', 'Sheet1!A2': '=NA()', 'Sheet1!A3': 'txt',
-             'Sheet1!A4': 7}
+             'Sheet1!A4': 7, 'Sheet1!A6': '=EXP(1)'}
     f = '=%s(%s)' % (fn, inner)
     o = lib.eval_formula(f, cells, addr='Sheet1!Z1')[0]
     if o != ('B', want):
